@@ -29,6 +29,10 @@ type val struct {
 type mkey struct {
 	S   string `json:"s"` // hex of the name
 	Sym bool   `json:"sym,omitempty"`
+	// Bare: the key is the unquoted symbol itself - what the expressions true,
+	// false and :keyword evaluate to (true/false are the lisp.Bool singletons);
+	// Sym without Bare is the quoted symbol 'name.
+	Bare bool `json:"bare,omitempty"`
 }
 
 func vNil() val            { return val{K: "nil"} }
@@ -45,6 +49,7 @@ func vList(e ...val) val {
 }
 func keyStr(s string) mkey             { return mkey{S: hex.EncodeToString([]byte(s))} }
 func keySym(s string) mkey             { return mkey{S: hex.EncodeToString([]byte(s)), Sym: true} }
+func keyBare(s string) mkey            { return mkey{S: hex.EncodeToString([]byte(s)), Sym: true, Bare: true} }
 func vMap(keys []mkey, vals []val) val { return val{K: "map", M: keys, E: vals} }
 
 func (v val) float() float64 {
@@ -89,7 +94,9 @@ func (v val) renderTo(b *strings.Builder) {
 	case "map":
 		b.WriteString("(sorted-map")
 		for i, e := range v.E {
-			if v.M[i].Sym {
+			if v.M[i].Bare {
+				fmt.Fprintf(b, " #sym<%q> ", v.M[i].name())
+			} else if v.M[i].Sym {
 				b.WriteString(" '" + string(v.M[i].name()) + " ")
 			} else {
 				fmt.Fprintf(b, " %q ", v.M[i].name())
@@ -149,7 +156,16 @@ func (v val) build(normal bool) *lisp.LVal {
 				name, _ = scrub(name)
 			}
 			var k *lisp.LVal
-			if v.M[i].Sym && !normal {
+			if v.M[i].Bare && !normal {
+				switch string(name) {
+				case lisp.TrueSymbol:
+					k = lisp.Bool(true)
+				case lisp.FalseSymbol:
+					k = lisp.Bool(false)
+				default:
+					k = lisp.Symbol(string(name))
+				}
+			} else if v.M[i].Sym && !normal {
 				k = lisp.Quote(lisp.Symbol(string(name)))
 			} else {
 				k = lisp.String(string(name))
